@@ -8,6 +8,7 @@ import (
 	"github.com/evanw/esbuild/internal/js_ast"
 	"github.com/evanw/esbuild/internal/js_parser"
 	"github.com/evanw/esbuild/internal/logger"
+	"github.com/evanw/esbuild/internal/verif"
 )
 
 // This cache intends to avoid unnecessarily re-parsing files in subsequent
@@ -48,6 +49,7 @@ func (c *CSSCache) Parse(log logger.Log, source logger.Source, options css_parse
 
 	// Cache hit
 	if entry != nil && entry.source == source && entry.options.Equal(&options) {
+		verif.Event("cache.css", "path", source.KeyPath.Text, "hit", true, "src", source.Contents, "opts", css_parser.VerifOptionsDigest(&options))
 		for _, msg := range entry.msgs {
 			log.AddMsg(msg)
 		}
@@ -55,6 +57,7 @@ func (c *CSSCache) Parse(log logger.Log, source logger.Source, options css_parse
 	}
 
 	// Cache miss
+	verif.Event("cache.css", "path", source.KeyPath.Text, "hit", false, "src", source.Contents, "opts", css_parser.VerifOptionsDigest(&options))
 	tempLog := logger.NewDeferLog(logger.DeferLogAll, log.Overrides)
 	ast := css_parser.Parse(tempLog, source, options)
 	msgs := tempLog.Done()
@@ -103,6 +106,7 @@ func (c *JSONCache) Parse(log logger.Log, source logger.Source, options js_parse
 
 	// Cache hit
 	if entry != nil && entry.source == source && entry.options == options {
+		verif.Event("cache.json", "path", source.KeyPath.Text, "hit", true, "src", source.Contents, "opts", verifJSONOptions(options))
 		for _, msg := range entry.msgs {
 			log.AddMsg(msg)
 		}
@@ -110,6 +114,7 @@ func (c *JSONCache) Parse(log logger.Log, source logger.Source, options js_parse
 	}
 
 	// Cache miss
+	verif.Event("cache.json", "path", source.KeyPath.Text, "hit", false, "src", source.Contents, "opts", verifJSONOptions(options))
 	tempLog := logger.NewDeferLog(logger.DeferLogAll, log.Overrides)
 	expr, ok := js_parser.ParseJSON(tempLog, source, options)
 	msgs := tempLog.Done()
@@ -159,6 +164,7 @@ func (c *JSCache) Parse(log logger.Log, source logger.Source, options js_parser.
 
 	// Cache hit
 	if entry != nil && entry.source == source && entry.options.Equal(&options) {
+		verif.Event("cache.js", "path", source.KeyPath.Text, "hit", true, "src", source.Contents, "opts", js_parser.VerifOptionsDigest(&options))
 		for _, msg := range entry.msgs {
 			log.AddMsg(msg)
 		}
@@ -166,6 +172,7 @@ func (c *JSCache) Parse(log logger.Log, source logger.Source, options js_parser.
 	}
 
 	// Cache miss
+	verif.Event("cache.js", "path", source.KeyPath.Text, "hit", false, "src", source.Contents, "opts", js_parser.VerifOptionsDigest(&options))
 	tempLog := logger.NewDeferLog(logger.DeferLogAll, log.Overrides)
 	ast, ok := js_parser.Parse(tempLog, source, options)
 	msgs := tempLog.Done()
